@@ -18,7 +18,7 @@ EXPLANATION = (
     "(R3) CUT-AGREE - cycles_check and check_recursion cut at the same tag set; the fix-point flag is computed before "
     "the collected edges are drained; an SCC without a cut point is an error. Finiteness for all graphs and 'one "
     "instantiation is emitted once' are value-level and not decided.")
-EXPLANATION += " Further clauses: (R4) GRAPH-COMPLETE - every use adds an edge to the graph handed to cycles_check, Context::new only in eval::eval; (R5) RECURSION-IS-SCHEMA - every cast that accepts all schema values accepts the recursion marker and a named reference. R2 requires the innermost scope id (last / next_back / rev().next()); R4 requires that only the lookup result and the definition kind decide whether a dependency edge is added; (R6) COMPONENT-HELD (shared C03.R1). R4 also requires the graph builder's index to be keyed by the whole External; (R7) INNERMOST (shared C08.R1)."
+EXPLANATION += " Further clauses: (R4) GRAPH-COMPLETE - every use adds an edge to the graph handed to cycles_check, Context::new only in eval::eval; (R5) RECURSION-IS-SCHEMA - every cast that accepts all schema values accepts the recursion marker and a named reference. R2 requires the innermost scope id (last / next_back / rev().next()); R4 requires that only the lookup result and the definition kind decide whether a dependency edge is added; (R6) COMPONENT-HELD (shared C03.R1). R4 also requires the graph builder's index to be keyed by the whole External; (R7) INNERMOST (shared C08.R1). (R8) ONCE - the scope id hashed into the name of a rec identifies the instantiation, not the evaluation (one known finding)."
 TECHNIQUE = "static analysis: MIR dominance / must-pass-through path rules + predicate agreement by abstract interpretation"
 
 
@@ -430,7 +430,33 @@ def r5_recursion_is_schema(c, facts):
     c.floor(R, 'casts that accept every schema value', n, 3)
 
 
+def r8_once(c, facts):
+    """"One instantiation is emitted once": a declaration that is not itself recursive is evaluated again at every use,
+    and every evaluation of a function body pushes a scope; if the identifier of a `rec` inside it hashes a scope id that
+    merely counts pushes, each re-evaluation of the *same* instantiation names a new component."""
+    R = c.rule('C09.R8', 'ONCE: the scope id hashed into the name of a rec identifies the instantiation, not the evaluation')
+    ps = c.anchor(R, 'oal_compiler::eval::Context::push_scope')
+    pidx = MF.defs_index(ps)
+    pushes = P.call_blocks(ps, 'Vec::push')
+    c.floor(R, 'scope pushes in Context::push_scope', len(pushes), 1)
+    counter_only = False
+    for b, t in pushes:
+        a = t['args'][1]
+        # the pushed tuple (id, scope): follow the id component
+        for kind, bi, st in pidx.get(a.get('l'), []):
+            if kind == 'assign' and st['rv']['r'] == 'aggr' and st['rv'].get('ak') == 'tuple' and st['rv']['ops']:
+                idop = st['rv']['ops'][0]
+                sl = MF.slice_back(ps, idop['l'], pidx) if 'l' in idop else {'args': set(), 'calls': []}
+                if sl['args'] <= {1} and not [n for n, _, _ in sl['calls'] if 'hash' in n.lower() or 'digest' in n.lower()]:
+                    counter_only = True
+    if counter_only:
+        c.bad(R, 'scope-id-counts-evaluations', 'Context::push_scope numbers scopes with a counter of pushes: a closed declaration containing a `rec` that is used twice inside function bodies (or a non-recursive declaration applied once and used twice) is evaluated twice under two scope ids and emitted as two identical components')
+    else:
+        c.ok(R, {'push_scope': 'the scope id derives from the instantiation'})
+
+
 def run(c, facts):
+    c.run(r8_once, facts)
     import c03
     import c08 as _c08
     R7 = c.rule('C09.R7', 'INNERMOST: the binder of a `rec` shadows a declaration of the same name, so the uses inside it are recursion points and not references to something else (shared with C08.R1)')
